@@ -18,8 +18,8 @@ LEVEL_TEXT = ('Lean 4 theorems at ℂ/ℝ, stated over the C02 propagation model
               'intensity is ≤ Σ|total input field|², with equality over the whole period; for two calls on tilt-free fields with nested evaluated windows the first call\'s energy over any sample set is ≤ the second\'s (propagate_dft_nested_windows), and as one chain 0 ≤ E(W₁) ≤ E(W₂) ≤ input power inside one period (propagate_dft_nested_windows_le_input_power), nested sample sets of one call are monotone; intensity ≥ 0; a '
               'tilted field, several fields sharing one tilt, or fields with different tilts (against the power of the coherently summed ramped inputs) keep their energy over a covered period, and any smaller set of samples of that period captures a non-negative energy no larger (common_tilt_window_energy_le, multi_tilt_window_energy_le); '
               'through C09 fft_eq_propagate_dft (which contains fftshift∘fft2(ortho)∘ifftshift = centred unitary dft2, C09 fft_path_is_unitary_dft_complex — cited, not restated here) the whole FFT propagator (grid shape, padding or scratch, crop; any number of '
-              'fields; isotropic dx·du, or — propagate_fft_energy_consistent — a possibly non-square grid consistent with both samplings, S0·dx0·du0 = S1·dx1·du1) returns at most the input power and exactly it on the full grid; normalize_power (factor regenerated from util.py) '
-              'yields power p ≥ 0 for every input of non-zero power at every input scale, a pupil images to its amplitude·mask power (through C07 Plane.multiply), and as one statement a pupil whose amplitude is normalize_power(a, p) images to total exactly p (normalized_pupil_images_to_p: monolithic mask, propagate_dft, full period). The propagate_dft correspondence runs the C02 model itself (Gen.dftWindow, Gen.maskShape/Shift, dftAlpha) '
+              'fields; isotropic dx·du, or — propagate_fft_energy_consistent — a possibly non-square grid consistent with both samplings, S0·dx0·du0 = S1·dx1·du1) returns at most the input power and exactly it on the full grid (both clauses instantiated on accepted calls by `example`s: plain 4×4 call; explicit shape, dirty scratch, non-square consistent grid); normalize_power (factor regenerated from util.py) '
+              'yields power p ≥ 0 for every input of non-zero power at every input scale, a pupil images to its amplitude·mask power (through C07 Plane.multiply), and as one statement a pupil whose amplitude is normalize_power(a, p) images to total exactly p (normalized_pupil_images_to_p: monolithic mask, propagate_dft, full period; normalized_pupil_images_to_p_fft: the same pupil through the C09 model of propagate_fft, whole grid returned, isotropic or grid-consistent sampling). The propagate_dft correspondence runs the C02 model itself (Gen.dftWindow, Gen.maskShape/Shift, dftAlpha) '
               'at doubles, the propagate_fft correspondence runs the C09 model propagateFft (generated grid shape, guards, scratch regions); normalize_power runs Model/Energy.lean.')
 LEVEL_NOTE = ('Trusted, stated plainly: the FFT clauses rest on C09\'s model of _fft2 (generated index maps, fft2 contract): that NumPy\'s '
               'fft2(norm="ortho") computes the unitary DFT sum, and that fftshift/ifftshift are the stated index maps, is assumed there and only observed '
@@ -37,8 +37,8 @@ RULE = ('cases: wavefronts of shape 1..5 x 1..5 (one full field, or 2-3 sub-fiel
 TRUSTED = ['np.fft.fft2(norm="ortho") is the unitary DFT with origin at index 0; np.fft.fftshift / ifftshift follow their documented '
            'index maps (modelled in C09, observed through the c09.propagate_fft correspondence)',
            'np.dot / np.exp / np.abs / np.sum as written in the model; Wavefront.intensity merges coincident output fields (C06)']
-UNPROVEN = ['"images to total p" is proved for a monolithic pupil on the fresh wavefront through propagate_dft (normalized_pupil_images_to_p, amplitude vanishing outside the mask); for the FFT '
-            'path and for segmented masks it is the composition with propagate_fft_energy / C03 segmented = monolithic, not restated; evaluated by the oracle',
+UNPROVEN = ['"images to total p" is proved for a monolithic pupil on the fresh wavefront through propagate_dft (normalized_pupil_images_to_p, amplitude vanishing outside the mask) and through propagate_fft when the whole grid is returned (normalized_pupil_images_to_p_fft); for '
+            'segmented masks it is the composition with C03 segmented = monolithic, not restated; evaluated by the oracle',
             'Wavefront.insert(out, weight) = out + weight·intensity is evaluated by the oracle only',
             'propagate_fft_energy(_consistent) needs isotropic dx·du or a grid consistent with both samplings (C09: the FFT propagator reports one '
             'wavelength for two grids otherwise — known finding D9)']
